@@ -84,9 +84,9 @@ CLAIMS = {
    note=TB + "For bcrypt, yescrypt and gost-yescrypt the 'specification' is the Lean model itself validated cross-release (no independent specification is available in the sandbox); Model = Spec theorems exist for the digest-based cores, the rest is by correspondence.",
    technique="Lean 4 model + proof (partial) with exact correspondence and independent-implementation oracles", ref="DESIGN.md §6 C02"),
  "C03": dict(
-   text="Perturbation oracle on the implementation and the model (full outputs): every single-bit flip, truncation and extension inside the documented significant window changes the hash, flips outside it (bytes beyond 8/128/72, 8th bit for DES-based methods) do not, every salt character change changes the hash part; Lean theorems: the insignificant windows of descrypt/bigcrypt, injectivity of the text encodings.",
-   note=TB + "Collision resistance of the primitives is a cryptographic assumption and is not provable; the theorems cover the structural part (what is and is not fed to the primitive, injective encodings).",
-   technique="Lean 4 proof (partial) + exhaustive-position perturbation oracle", ref="DESIGN.md §6 C03"),
+   text="Perturbation oracle on the implementation and the model (full outputs): every single-bit flip, truncation and extension inside the documented significant window changes the hash, flips outside it (bytes beyond 8/128/72, 8th bit for DES-based methods) do not, every salt character change changes the hash part; Lean theorems: the exact insignificant windows of descrypt; the digest encoders are injective (permEncode over the schedules regenerated from the tree, sha1/DES/bcrypt/yescrypt encoders, hex); reductions C03_<m>_reduction for md5crypt, sha256crypt, sha512crypt, sha1crypt, sunmd5, NT, descrypt, bsdicrypt, bcrypt, yescrypt: two phrases (with any two settings) that give the same hash used the same salt and cost, and the method's core function - arbitrary, only its output length is assumed - returned the same digest for both: a false accept is exactly a collision of the underlying construction.",
+   note=TB + "Collision resistance of the primitives is a cryptographic assumption and is not provable; the theorems cover the structural part (what is and is not fed to the primitive, injective encodings, reduction to a collision); bigcrypt, scrypt and gost-yescrypt have no reduction theorem yet (perturbation oracle + exact correspondence).",
+   technique="Lean 4 proof (reduction to collisions of the core function, 10 methods) + exhaustive-position perturbation oracle", ref="DESIGN.md §6 C03"),
 }
 NOT_YET = "check under construction in this round; not claimed yet"
 
